@@ -4,7 +4,7 @@
    Composition along a run whose intermediate states are known (from Theorem A), the IF decision read off
    the state, and the fall-back to the all-paths bound [cbl] of ExtOps.v. *)
 From Coq Require Import Lia.
-From Verif Require Import ExecTr ExecLemmas ExtExec ExtDepthBase ExtModel ExtOps.
+From Verif Require Import ExecTr ExecLemmas TheoremA ExtExec ExtDepthBase ExtModel ExtOps.
 Local Open Scope N_scope.
 
 Arguments N.add : simpl never. Arguments N.max : simpl never.
@@ -73,4 +73,35 @@ Proof.
   assert (Z : exec_tr e (if_branch c neg thn els ++ s) (mkSt r (alt st)) (tr_step t 0 (mkSt r (alt st))) = Ok (st', t')).
   { rewrite exec_tr_app, Y. exact X2. }
   specialize (H _ _ _ Z). cbn [tr_step tr_cms] in H. lia.
+Qed.
+
+(* trailing glue without CHECKMULTISIG: no state needed *)
+Lemma bnd_app_glue e a g st n : cbl None g = 0 -> bnd e a st n -> bnd e (a ++ g) st n.
+Proof. intros Hg H. eapply bnd_le; [apply bnd_app_any; exact H | lia]. Qed.
+
+(* the VERIFY-folded form counts what op ; VERIFY counts *)
+Lemma pv_cms e s : forall st t st' t',
+  exec_tr e (push_verify s) st t = Ok (st', t') ->
+  exists t'', exec_tr e (s ++ [IOp OP_VERIFY]) st t = Ok (st', t'') /\ tr_cms t' = tr_cms t''.
+Proof.
+  induction s as [|i r IH]; intros st t st' t' H.
+  - cbn [push_verify app] in *. exists t'. split; [exact H|reflexivity].
+  - destruct r as [|j r'].
+    + destruct i as [b|n|o|ng th el]; cbn [push_verify app] in *; try (exists t'; split; [exact H|reflexivity]).
+      destruct (verify_form o) as [o'|] eqn:Ev; [|exists t'; split; [exact H|reflexivity]].
+      rewrite exec_tr_single in H. cbn [exec_instr_tr exec_instr] in H.
+      rewrite (verify_form_sound e o o' st Ev) in H.
+      destruct (exec_op e o st) as [s1|] eqn:E1; cbn [bind] in H; [|discriminate].
+      destruct (exec_op e OP_VERIFY s1) as [s2|] eqn:E2; [|discriminate]. inversion H; subst.
+      cbn [exec_tr exec_instr_tr exec_instr]. rewrite E1, E2. eexists. split; [reflexivity|].
+      unfold tr_step. cbn [tr_cms]. clear - Ev. destruct o; cbn [verify_form] in Ev; inversion Ev; subst; cbn [cms_of]; lia.
+    + assert (Hpv : push_verify (i :: j :: r') = i :: push_verify (j :: r')) by (destruct i; reflexivity).
+      rewrite Hpv in H. apply exec_tr_cons_inv in H. destruct H as (s1 & t1 & Hi & Hr).
+      destruct (IH _ _ _ _ Hr) as (t'' & E & Hle). exists t''. split; [|exact Hle].
+      change ((i :: j :: r') ++ [IOp OP_VERIFY]) with (i :: ((j :: r') ++ [IOp OP_VERIFY])). cbn [exec_tr]. rewrite Hi. exact E.
+Qed.
+Lemma bnd_pv e s st n : bnd e s st n -> bnd e (push_verify s) st n.
+Proof.
+  intros H t st' t' X. destruct (pv_cms e s _ _ _ _ X) as (t'' & E & Heq).
+  pose proof (bnd_app_glue e s [IOp OP_VERIFY] st n eq_refl H _ _ _ E). lia.
 Qed.
